@@ -176,7 +176,7 @@ func checkC17(w *World, r *Report) {
 	for fi := range rg.viewWriters {
 		writers = append(writers, fi)
 	}
-	sort.Slice(writers, func(i, j int) bool { return writers[i].Decl.Pos() < writers[j].Decl.Pos() })
+	sort.Slice(writers, func(i, j int) bool { return posLess(writers[i].Decl.Pos(), writers[j].Decl.Pos()) })
 	for _, fi := range writers {
 		r.Analysed(fi)
 		info := fi.Pkg.TypesInfo
@@ -358,7 +358,7 @@ func checkC17(w *World, r *Report) {
 		for c := range callers {
 			cs = append(cs, c)
 		}
-		sort.Slice(cs, func(i, j int) bool { return cs[i].Decl.Pos() < cs[j].Decl.Pos() })
+		sort.Slice(cs, func(i, j int) bool { return posLess(cs[i].Decl.Pos(), cs[j].Decl.Pos()) })
 		for _, caller := range cs {
 			checkInsertCallSites(w, r, rg, ins, caller)
 		}
@@ -733,7 +733,7 @@ func checkAtomicRejection(w *World, r *Report, rg *registry) {
 			fis = append(fis, f)
 		}
 	}
-	sort.Slice(fis, func(i, j int) bool { return fis[i].Decl.Pos() < fis[j].Decl.Pos() })
+	sort.Slice(fis, func(i, j int) bool { return posLess(fis[i].Decl.Pos(), fis[j].Decl.Pos()) })
 	// which functions write views (transitively), and which are atomic registrars
 	writes := map[*types.Func]map[string]bool{}
 	for f, ws := range rg.viewWriters {
